@@ -350,27 +350,50 @@ func c11() []*Ob {
 				}
 			}},
 		{Prop: "C11", ID: "C11.6", Engine: "ALIAS", Floor: 1,
-			Desc: "tokenizer helpers never append to a view of their input: values are views into the shared decoder buffer, an in-place edit must keep its length (shared rule with C10.1)",
+			Desc: "tokenizer and indexer code never appends to a byte slice it was given (unless it returns the grown slice, append-style): field names and values are views into the shared decoder buffer or into a name built for the parent object, an in-place edit must keep its length (shared rule with C10.1)",
 			Check: func(c *Ctx) {
-				n := 0
-				for _, fn := range c.P.FuncsInPkg("tokenizer") {
-					for _, ap := range CallsIn(fn, Callee("builtin.append")) {
-						dst := ap.Common().Args[0]
-						if !isByteSlice(dst) {
-							continue
+				n, total := 0, 0
+				for _, pkg := range []string{"tokenizer", "proxy/bulk"} {
+					funcs := c.P.FuncsInPkg(pkg)
+					total += len(funcs)
+					for _, fn := range funcs {
+						for _, ap := range CallsIn(fn, Callee("builtin.append")) {
+							dst := ap.Common().Args[0]
+							if !isByteSlice(dst) {
+								continue
+							}
+							if !DerivesFromNoCall(dst, func(v ssa.Value) bool { p, ok := v.(*ssa.Parameter); return ok && isByteSlice(p) }) {
+								continue
+							}
+							if sl, ok := dst.(*ssa.Slice); ok && sl.Max != nil {
+								continue
+							}
+							// the append-style API (dst in, grown dst out) hands the result back to the owner of the buffer
+							returned := false
+							for _, b := range fn.Blocks {
+								if ret, ok := b.Instrs[len(b.Instrs)-1].(*ssa.Return); ok {
+									for i := range ret.Results {
+										if DerivesFrom(RetOperand(ret, i), func(v ssa.Value) bool { return v == ap.Value() }) {
+											returned = true
+										}
+									}
+								}
+							}
+							// ... and grows the destination from its end: appending to a re-slice (s[:i]) overwrites live bytes
+							if _, resliced := dst.(*ssa.Slice); resliced {
+								returned = false
+							}
+							if returned {
+								c.Site(ap.Pos(), "%s grows its destination parameter and returns it (append-style API)", FuncName(fn))
+								continue
+							}
+							n++
+							c.Violation("alias:"+pkg+":append-to-view:"+FuncName(fn), ap.Pos(), "%s appends to (a sub-slice of) a byte slice it was given and keeps the result: when the slice has spare capacity (a view into the decoder buffer, or a name built by an earlier append) the bytes behind it are overwritten, and a sibling field or the following word is indexed under a corrupted token", FuncName(fn))
 						}
-						if !DerivesFromNoCall(dst, func(v ssa.Value) bool { p, ok := v.(*ssa.Parameter); return ok && isByteSlice(p) }) {
-							continue
-						}
-						if sl, ok := dst.(*ssa.Slice); ok && sl.Max != nil {
-							continue
-						}
-						n++
-						c.Violation("alias:tokenizer:append-to-view:"+FuncName(fn), ap.Pos(), "%s appends to (a sub-slice of) its input: growing the view overwrites the following word / field in the shared buffer, which is then indexed under a corrupted token", FuncName(fn))
 					}
 				}
 				if n == 0 {
-					c.Site(token.NoPos, "no function of package tokenizer appends to a view of its input (%d functions)", len(c.P.FuncsInPkg("tokenizer")))
+					c.Site(token.NoPos, "no function of packages tokenizer and proxy/bulk appends to a view of its input (%d functions)", total)
 				}
 			}},
 		{Prop: "C11", ID: "C11.5", Engine: "PROV", Floor: 2,
